@@ -86,7 +86,10 @@ theorem optDsat_iff_optSat {M : Matchers Re} (hM : MatcherFaithful M) (p : Optio
   | none => exact Iff.rfl
   | some q => simp only [optDsat, optSat]; rw [q.dsat_eq_sat hM hk]
 
-/-- **T2 `search_eq_bruteforce_param`.** For every predicate tree over =, !=, =~, !~, AND, OR and
+/-- **T2 `search_eq_bruteforce_param`.** (The select path answers from the tag-filter cache; between
+a periodic, non-final flush and the deferred flush callback — `needBump` — cached results may be
+stale, see `staleness_window_witness`; the statement for the select path is for the states in
+which no callback is owed, the show-series path is exact in every state.) For every predicate tree over =, !=, =~, !~, AND, OR and
 parentheses (or no predicate), in every reachable state, both evaluation paths of the index — the
 show-series path and the select path with its tag-filter cache, cost ordering and pruning — return
 exactly the brute-force answer, **provided** the matchers derived by `tagFilter.Init` agree with
@@ -94,13 +97,15 @@ unanchored matching (`MatcherFaithful`) and cache keys identify filters (`KeySou
 theorem search_eq_bruteforce_param {M : Matchers Re} (hM : MatcherFaithful M) (hK : KeySound M) {s : St}
     (hr : Reach M s) (mst : Str) (p : Option (Pred Re)) (hp : optKeysOk p) :
     (∀ i, i ∈ searchShow M s mst p ↔ Matches M s mst p i) ∧
-    (∃ ids, (searchSel M s mst p).1 = some ids ∧ ∀ i, i ∈ ids ↔ Matches M s mst p i) := by
+    (s.needBump = false →
+      ∃ ids, (searchSel M s mst p).1 = some ids ∧ ∀ i, i ∈ ids ↔ Matches M s mst p i) := by
   obtain ⟨cv, cp, h, hc⟩ := reach_cache hM hK hr
   constructor
   · intro i
     rw [mem_searchShow h.goodVis h.vis p hp, ← sem_iff_matches h]
     exact Sem.congr h.goodVis (fun k hk => optDsat_iff_optSat hM p hk)
-  · obtain ⟨_, _, ids, h1, h2⟩ := searchSel_spec hM hK h hc mst p hp
+  · intro hb
+    obtain ⟨_, _, ids, h1, h2⟩ := searchSel_spec hM hK h (hc hb) mst p hp
     exact ⟨ids, h1, fun i => by rw [h2 i, sem_iff_matches h]⟩
 
 /-- Without any hypothesis on the matchers the show-series path still computes the set algebra
@@ -167,12 +172,17 @@ theorem search_eq_bruteforce_full_false : ¬ search_eq_bruteforce_full := by
 after a series is written and the index flushed, a select-path search returns the series iff its
 key satisfies the predicate. -/
 theorem cache_coherent {M : Matchers Re} (hM : MatcherFaithful M) (hK : KeySound M) {s : St} (hr : Reach M s)
+    (hnb : s.needBump = false)
     (key : SKey) (hk : key.WF) (hb : s.seq + 1 < 2 ^ 40) (p : Option (Pred Re)) (hp : optKeysOk p) :
     ∃ ids, (searchSel M (flush (insert s key).2) key.mst p).1 = some ids ∧
       ((insert s key).1 ∈ ids ↔ optSat M p key) := by
   have hr1 : Reach M (apply M s (.ins key)) := Reach.step _ hr ⟨hk, hb⟩
   have hr2 : Reach M (apply M (apply M s (.ins key)) .flush) := Reach.step _ hr1 trivial
-  obtain ⟨_, ids, h1, h2⟩ := search_eq_bruteforce_param hM hK hr2 key.mst p hp
+  have hnb2 : (apply M (apply M s (.ins key)) .flush).needBump = false := by
+    show (flush (insert s key).2).needBump = false
+    rw [flush_needBump, insert_needBump]; exact hnb
+  obtain ⟨_, hsel⟩ := search_eq_bruteforce_param hM hK hr2 key.mst p hp
+  obtain ⟨ids, h1, h2⟩ := hsel hnb2
   refine ⟨ids, h1, ?_⟩
   rw [h2]
   -- the written series is stored under the returned id, visibly, and is not deleted
